@@ -321,6 +321,55 @@ fn g_octet(r: &mut Rng) -> u8 {
     if r.chance(1, 2) { r.pick(&[0u8, 0, 1, 9, 10, 99, 100, 127, 192, 255]) } else { r.next() as u8 }
 }
 
+/// IPv6 addresses of every special class (unspecified, loopback, IPv4-mapped, IPv4-compatible,
+/// NAT64, link-local, multicast) plus random ones
+fn g_v6(r: &mut Rng) -> [u8; 16] {
+    let mut o = [0u8; 16];
+    match r.below(10) {
+        0 => {}
+        1 => o[15] = 1,
+        2 | 3 => {
+            o[10] = 0xff;
+            o[11] = 0xff;
+            for i in 12..16 {
+                o[i] = g_octet(r);
+            }
+        }
+        4 => {
+            for i in 12..16 {
+                o[i] = g_octet(r);
+            }
+        }
+        5 => {
+            o[0] = 0x00;
+            o[1] = 0x64;
+            o[2] = 0xff;
+            o[3] = 0x9b;
+            for i in 12..16 {
+                o[i] = g_octet(r);
+            }
+        }
+        6 => {
+            o[0] = 0xfe;
+            o[1] = 0x80;
+            for i in 8..16 {
+                o[i] = g_octet(r);
+            }
+        }
+        7 => {
+            o[0] = 0xff;
+            o[1] = 0x02;
+            o[15] = g_octet(r);
+        }
+        _ => {
+            for i in 0..16 {
+                o[i] = g_octet(r);
+            }
+        }
+    }
+    o
+}
+
 fn g_v5_request(r: &mut Rng) -> Vec<u8> {
     let mut b = vec![if r.chance(19, 20) { 5 } else { r.next() as u8 }, r.pick(&[1u8, 1, 2, 3, 0, 9, 255]), if r.chance(9, 10) { 0 } else { r.next() as u8 }];
     match r.below(10) {
@@ -338,15 +387,7 @@ fn g_v5_request(r: &mut Rng) -> Vec<u8> {
         }
         6..=8 => {
             b.push(4);
-            let style = r.below(4);
-            for i in 0..16 {
-                b.push(match style {
-                    0 => 0,
-                    1 => if i == 15 { 1 } else { 0 },
-                    2 => if i < 10 { 0 } else if i < 12 { 0xff } else { g_octet(r) },
-                    _ => g_octet(r),
-                });
-            }
+            b.extend(g_v6(r));
         }
         _ => b.push(r.pick(&[0u8, 2, 5, 6, 255, 128])),
     }
@@ -492,9 +533,7 @@ pub fn generate(a: &Args, out: &mut Out) {
                     }
                     4 | 5 => {
                         b.push(4);
-                        for _ in 0..16 {
-                            b.push(g_octet(&mut r));
-                        }
+                        b.extend(g_v6(&mut r));
                     }
                     _ => b.push(r.next() as u8),
                 }
@@ -519,9 +558,7 @@ pub fn generate(a: &Args, out: &mut Out) {
                     }
                 } else {
                     c.push(4);
-                    for _ in 0..16 {
-                        c.push(u64::from(g_octet(&mut r)));
-                    }
+                    c.extend(g_v6(&mut r).iter().map(|&b| u64::from(b)));
                 }
                 c.push(r.pick(&[0u64, 1, 53, 255, 256, 65535]));
                 let pl = r.pick(&[0usize, 0, 1, 2, 3, 4, 5, 100, 1500]);
@@ -537,9 +574,7 @@ pub fn generate(a: &Args, out: &mut Out) {
                     }
                 } else {
                     c.push(4);
-                    for _ in 0..16 {
-                        c.push(u64::from(g_octet(&mut r)));
-                    }
+                    c.extend(g_v6(&mut r).iter().map(|&b| u64::from(b)));
                 }
                 c.push(r.pick(&[0u64, 1, 80, 255, 256, 65535, 0x1234]));
                 emit(out, c);
